@@ -248,7 +248,63 @@ Proof.
   assert (P : forall v : bool, Interp.interp orc cfg run (put (if v then [xff] else [x00])) fr (with_stack (with_stack (with_stack st (msg :: sig :: s)) (sig :: s)) s)
              = Done tt fr (with_stack st (boolb v :: s))).
   { intro v. unfold put, act. destruct v; (rewrite put1 with (rest := s); [reflexivity|exact Hr|reflexivity]). }
-  destruct (orc PVerify [vkey; msg; sig]) as [[|x [|y l]]|e]; apply P.
+  destruct (orc PVerify [vkey; msg; sig]) as [[|x [|y l]]|e];
+    first [apply (P false) | apply (P (bytes_to_bool x))].
 Qed.
 
 End Steps.
+
+(* ---------------------------------------------------------------------------------------------- *)
+(* stepping run_tape at a pointer given by [skipn]                                                 *)
+(* ---------------------------------------------------------------------------------------------- *)
+
+Lemma nth_of_skipn {A} (d : A) : forall p (l : list A) c tail,
+  skipn p l = c :: tail -> nth p l d = c /\ p < List.length l.
+Proof.
+  induction p as [|p IH]; intros [|x l] c tail H; try discriminate.
+  - injection H as -> _. split; [reflexivity|simpl; lia].
+  - cbn [skipn] in H. destruct (IH l c tail H) as [H1 H2]. split; [exact H1|simpl; lia].
+Qed.
+
+Section Run.
+Variable orc : oracle.
+Variable cfg : config.
+
+Lemma run_tape_fetch_at f tid p st data c tail :
+  tdata st tid = data -> skipn p data = c :: tail ->
+  run_tape orc cfg (S f) tid p st =
+    match interp orc cfg (fun t s => run_tape orc cfg f t 0 s) (dispatch (N.to_nat (Byte.to_N c)))
+                 {| fr_tid := tid; fr_ptr := S p |} st with
+    | Done _ fr' st' => run_tape orc cfg f tid (fr_ptr fr') st'
+    | Raised e fr' st' => Raised e fr' st'
+    | OutOfFuel => OutOfFuel
+    | Unmodelled w => Unmodelled w
+    end.
+Proof.
+  intros Hd Hs. cbn [run_tape]. unfold tdata in Hd. rewrite Hd.
+  destruct (nth_of_skipn x00 p data c tail Hs) as [Hn Hl].
+  destruct (List.length data <=? p) eqn:E; [apply Nat.leb_le in E; lia|].
+  rewrite Hn. reflexivity.
+Qed.
+
+Lemma data_at_next tid p st data c tail :
+  tdata st tid = data -> skipn p data = c :: tail ->
+  data_at {| fr_tid := tid; fr_ptr := S p |} st = tail.
+Proof.
+  intros Hd Hs. unfold data_at, cur. cbn [fr_tid fr_ptr]. unfold tdata in Hd. rewrite Hd.
+  exact (skipn_S_of data p c tail Hs).
+Qed.
+
+(* an instruction that completes normally *)
+Lemma run_tape_step f tid p st data c tail fr' st' :
+  tdata st tid = data -> skipn p data = c :: tail ->
+  (data_at {| fr_tid := tid; fr_ptr := S p |} st = tail ->
+   interp orc cfg (fun t s => run_tape orc cfg f t 0 s) (dispatch (N.to_nat (Byte.to_N c)))
+          {| fr_tid := tid; fr_ptr := S p |} st = Done tt fr' st') ->
+  run_tape orc cfg (S f) tid p st = run_tape orc cfg f tid (fr_ptr fr') st'.
+Proof.
+  intros Hd Hs Hi. rewrite (run_tape_fetch_at f tid p st data c tail Hd Hs).
+  rewrite (Hi (data_at_next tid p st data c tail Hd Hs)). reflexivity.
+Qed.
+
+End Run.
